@@ -92,7 +92,7 @@ CLAIMED = {
             "padded estimate for every projection, the returned perm is a permutation maximising mean SIR (identity without compute_permutation) with outputs "
             "equal to the selected criteria and independent of np.empty contents, and the framewise variants hand the right slices to the per-window "
             "function with the caller's compute_permutation flag (also in the single-window fall-back), copy its results, put NaN in every metric of silent windows "
-            "and return the documented arity for empty input. Not stubbed: the real _safe_db on symbolic energies and the real _bss_source_crit/_bss_image_crit "
+            "and return the documented arity for empty input. Not stubbed: the real _safe_db on symbolic energies and the real _bss_source_crit "
             "on symbolic components (a ratio is +inf exactly when its error component is zero, also after a common positive factor).",
             "NOT covered (not applicable to SMT encoding, see DESIGN 6): scale invariance of SDR/SIR/SAR, perfect estimate => identity permutation with very high "
             "SDR, framewise == non-framewise values - these depend on 512-tap FFT/Toeplitz float64 numerics. Bounds: nsrc<=3, flen=2, nsampl<=3; framewise 2 sources, "
